@@ -173,7 +173,25 @@ def format_st(draw, max_options=5, max_args=4, max_names=2, max_levels=3):
 
 
 # ----------------------------------------------------------------------------- meanings and spellings
-def value_pool(e, for_arg):
+def flip(draw, num, den):
+    """True with probability num/den under Hypothesis; a plain two-way choice when enumerating."""
+    if getattr(draw, "enumerating", False):
+        return bool(draw(st.integers(0, 1)))
+    return draw(st.integers(0, den - 1)) < num
+
+
+SMALL_VALUES = {"s": [("x", "x"), ("a=b", "a=b")], "b": [(True, "yes"), (False, "0")], "i": [(7, "007"), (-3, "-3")],
+                "f": [(0.5, ".5"), (-2.5, "-2.5")]}
+
+
+def value_pool(e, for_arg, small=False):
+    if small:
+        pool = list(SMALL_VALUES[e["type"]])
+        if e["type"] == "s" and for_arg:
+            pool.append(("-dash", "-dash"))
+        if e.get("nullable"):
+            pool.append((None, "null"))
+        return pool
     pool = list(VALUES[e["type"]])
     if e["type"] == "s" and for_arg:
         pool = pool + ARG_ONLY_STRINGS
@@ -217,8 +235,7 @@ def expected_maps(fmt, given_opts, given_args):
     return {"options_set": opts_set, "options_all": opts_all, "arguments_set": args_set, "arguments_all": args_all}
 
 
-@st.composite
-def line_st(draw, fmt, structured=False, omit=None, options_after_names=False, allowed_options=None):
+def _line(draw, fmt, structured=False, omit=None, options_after_names=False, allowed_options=None, small_pools=False):
     """A meaning for fmt and one spelling of it. Returns a dict with 'tokens', 'expect', 'classes' and the
     structured 'units' (used by the C02 fault mutations)."""
     classes = set()
@@ -229,15 +246,15 @@ def line_st(draw, fmt, structured=False, omit=None, options_after_names=False, a
     for o in opts:
         if allowed_options is not None and o["long"] not in allowed_options:
             continue
-        if not draw(st.integers(0, 4 if o["mode"] == "none" else 1)):
+        if not flip(draw, 4 if o["mode"] == "none" else 1, 5 if o["mode"] == "none" else 2):
             continue
         if o["mode"] == "none":
             flags_units.append(o)
             continue
-        n = draw(st.integers(1, 3)) if o["mode"] == "multi" else 1
+        n = draw(st.integers(1, 2 if small_pools else 3)) if o["mode"] == "multi" else 1
         for _ in range(n):
             bare = False
-            if o["mode"] == "opt" and draw(st.integers(0, 3)) == 0:
+            if o["mode"] == "opt" and flip(draw, 1, 4):
                 if o["default"] is not None or o["nullable"]:
                     bare = True
                 else:
@@ -246,14 +263,14 @@ def line_st(draw, fmt, structured=False, omit=None, options_after_names=False, a
                 units.append({"kind": "opt", "long": o["long"], "short": o["short"], "value": o["default"],
                               "text": None, "bare_optional": True, "opt": o})
             else:
-                v, t = draw(st.sampled_from(value_pool(o, False)))
+                v, t = draw(st.sampled_from(value_pool(o, False, small_pools)))
                 units.append({"kind": "opt", "long": o["long"], "short": o["short"], "value": v, "text": t,
                               "bare_optional": False, "opt": o})
     # group some flags
     groups = []
     singles = []
     shorted = [o for o in flags_units if o["short"]]
-    if len(shorted) >= 1 and draw(st.integers(0, 3)):
+    if len(shorted) >= 1 and flip(draw, 3, 4):
         k = draw(st.integers(1, len(shorted)))
         grp = list(draw(st.permutations(shorted))[:k])
         groups.append(grp)
@@ -326,7 +343,7 @@ def line_st(draw, fmt, structured=False, omit=None, options_after_names=False, a
         n_given = len(names) - omit
         if omit:
             classes.add("omitted-command-names")
-    elif names and draw(st.integers(0, 2)) == 0:
+    elif names and flip(draw, 1, 3):
         n_given = draw(st.integers(0, len(names) - 1))
         classes.add("omitted-command-names")
     pos = []
@@ -346,17 +363,17 @@ def line_st(draw, fmt, structured=False, omit=None, options_after_names=False, a
         if stop:
             break
         if a["kind"] in ("req", "opt"):
-            if a["kind"] == "opt" and not draw(st.integers(0, 3)):
+            if a["kind"] == "opt" and flip(draw, 1, 4):
                 stop = True
                 break
-            v, t = draw(st.sampled_from(value_pool(a, True)))
+            v, t = draw(st.sampled_from(value_pool(a, True, small_pools)))
             pos.append({"kind": "arg", "text": t, "name": a["name"]})
             given_args[a["name"]] = v
         else:
-            n = draw(st.integers(1 if a["kind"] == "multireq" else 0, 3))
+            n = draw(st.integers(1 if a["kind"] == "multireq" else 0, 2 if small_pools else 3))
             vals = []
             for _ in range(n):
-                v, t = draw(st.sampled_from(value_pool(a, True)))
+                v, t = draw(st.sampled_from(value_pool(a, True, small_pools)))
                 pos.append({"kind": "arg", "text": t, "name": a["name"]})
                 vals.append(v)
             if n:
@@ -377,7 +394,7 @@ def line_st(draw, fmt, structured=False, omit=None, options_after_names=False, a
         lo = len([p for p in pos if p["kind"] == "name"])
         sep = draw(st.integers(min(lo, first_protected), first_protected))
         classes.add("protected-positional")
-    elif draw(st.integers(0, 3)) == 0:
+    elif flip(draw, 1, 4):
         sep = draw(st.integers(len([p for p in pos if p["kind"] == "name"]) if options_after_names else 0, len(pos)))
     head = pos if sep is None else pos[:sep]
     tail = [] if sep is None else pos[sep:]
@@ -444,6 +461,97 @@ def line_st(draw, fmt, structured=False, omit=None, options_after_names=False, a
         out["units"] = [{k: v for k, v in u.items() if k in ("kind", "tokens", "long", "mode", "what", "form",
                                                              "bare_optional", "after_sep")} for u in seq]
     return out
+
+
+line_st = st.composite(_line)
+
+
+class Exhausted(Exception):
+    pass
+
+
+class EnumDraw(object):
+    """A stand-in for Hypothesis' draw() that takes its choices from a prescribed list and records, for every
+    choice point, how many alternatives there were - so that _line() (the very same spelling grammar) can be
+    enumerated exhaustively by depth-first re-execution instead of sampled."""
+
+    enumerating = True
+
+    def __init__(self, prefix):
+        self.prefix = list(prefix)
+        self.trace = []  # (number of alternatives, chosen)
+
+    def _choose(self, n):
+        if n <= 0:
+            raise Exhausted()
+        i = len(self.trace)
+        c = self.prefix[i] if i < len(self.prefix) else 0
+        self.trace.append((n, c))
+        return c
+
+    def __call__(self, strategy):
+        import itertools
+
+        s = strategy
+        while type(s).__name__ == "LazyStrategy":
+            s = s.wrapped_strategy
+        name = type(s).__name__
+        if name == "SampledFromStrategy":
+            els = list(s.elements)
+            return els[self._choose(len(els))]
+        if name == "IntegersStrategy":
+            return s.start + self._choose(s.end - s.start + 1)
+        if name == "BooleansStrategy":
+            return bool(self._choose(2))
+        if name == "PermutationStrategy":
+            vals = list(s.values)
+            out = []
+            while vals:
+                out.append(vals.pop(self._choose(len(vals))) if len(vals) > 1 else vals.pop())
+            return out
+        if name == "ListStrategy":
+            if s.min_size != s.max_size:
+                raise TypeError("only fixed-size lists can be enumerated")
+            return [self(s.element_strategy) for _ in range(s.min_size)]
+        if name == "JustStrategy":
+            return s.value
+        if name == "BuildsStrategy" and not s.args and not s.kwargs:
+            return s.target()
+        raise TypeError("cannot enumerate %s" % name)
+
+
+def enumerate_lines(fmt, limit=None, state=None, **kw):
+    """All spellings of all meanings of fmt that _line() can produce (deduplicated by token list).
+    Yields line dicts; stops after `limit` runs (then the enumeration is not complete)."""
+    stack = [[]]
+    seen = set()
+    runs = 0
+    while stack:
+        if limit is not None and runs >= limit:
+            if state is not None:
+                state["complete"] = False
+            return
+        prefix = stack.pop()
+        d = EnumDraw(prefix)
+        line = _line(d, fmt, **kw)
+        runs += 1
+        for i in range(len(prefix), len(d.trace)):
+            n, c = d.trace[i]
+            for alt in range(1, n):
+                stack.append([t[1] for t in d.trace[:i]] + [alt])
+        key = (tuple(line["tokens"]), canon_expect(line["expect"]))
+        if key in seen:
+            continue
+        seen.add(key)
+        yield line
+    if state is not None:
+        state["complete"] = True
+
+
+def canon_expect(e):
+    import json
+
+    return json.dumps(e, sort_keys=True, default=repr)
 
 
 @st.composite
